@@ -365,8 +365,12 @@ def oracle(case, obs):
     if tcp and obs["phase"] == 1 and obs["waitk"] == 0 and not (obs["cst"] & 1) and not (obs["sst"] & 1):
         v.append({"key": "not-ended", "what": "both peers closed their read side, layer idle, flow not ended"})
     # (3) half-close: a close handled while the other peer is still readable is propagated as a half-close, alone
+    seen_closed = set()
     for e, p, o in zip(case["evs"], obs["pre"], obs["outs"]):
-        if tcp and e[0] == "closed" and not p[0] and p[1] == 1:
+        if e[0] == "closed":
+            seen_closed.add(e[1])
+        # (a peer whose ConnectionClosed was already delivered is not readable, whatever a replayed bit says)
+        if tcp and e[0] == "closed" and not p[0] and p[1] == 1 and other[e[1]] not in seen_closed:
             oth = p[3] if e[1] == "c" else p[2]
             if oth & 1 and o != [["half", other[e[1]]]]:
                 v.append({"key": "half-close-not-propagated", "what": f"close of {e[1]} while peer readable produced {o}"})
